@@ -45,6 +45,21 @@ Theorem C01_engine_eq_rule_by_rule : forall h matches pr, In 0 pr -> forall L T,
 Proof. exact engine_eq_spec. Qed.
 Print Assumptions C01_engine_eq_rule_by_rule.
 
+(* The same for the subset query (Engine::check_network_request_subset: matched_rule = an earlier
+   engine already matched, force_check_exceptions): only important rules add a blocking match after
+   an earlier match, exceptions are consulted whenever something blocks un-importantly or either
+   flag is set, and they read the enabled tag set on every path. *)
+Theorem C01_engine_eq_rule_by_rule_subset : forall h matches pr, In 0 pr -> forall mr fc L T,
+  id_inj L -> TG h matches pr L ->
+  blocker_check_p matches pr mr fc (tags_with_set h (blocker_new h L) T) = spec_verdict_p matches mr fc L T.
+Proof. exact engine_eq_spec_p. Qed.
+Print Assumptions C01_engine_eq_rule_by_rule_subset.
+
+Theorem C01_subset_query_flags_off : forall matches pr b,
+  blocker_check_p matches pr false false b = blocker_check matches pr b.
+Proof. exact blocker_check_p_ff. Qed.
+Print Assumptions C01_subset_query_flags_off.
+
 (* The rule sets feeding redirect, rewritten URL, CSP and generichide are exact as well. *)
 Theorem C01_redirect_hits_exact : forall h matches pr, In 0 pr -> forall L T f,
   id_inj L -> TG h matches pr L ->
